@@ -281,6 +281,30 @@ fn run_case(check: &Check, rng: &mut Rng, max_events: u64) {
     }
 }
 
+/// Two scripted histories (minimal inputs of the `...-nonwhole-us-interval` class, see FINDINGS.md), judged
+/// by the same oracle: one identity, `limit` requests at t=0 and `limit` more at t=`later_ns`.
+fn fixed_probes(check: &Check) {
+    for (limit, interval_ns, later_ns) in [(2u32, 1_500u64, 2_000u128), (2, 500, 500), (2, 1_000, 1_000), (1, 1_000_000_000, 999_999_999)] {
+        for per_ip in [false, true] {
+            let c = Cfg { per_ip, circuit: false, limit, interval_ns };
+            let mut l = c.build();
+            let base = Instant::now();
+            let addr: Multiaddr = "/ip4/203.0.113.7/tcp/4001".parse().unwrap();
+            let mut evs = vec![];
+            for k in 0..2 * limit {
+                let t = if k < limit { 0 } else { later_ns };
+                let now = base + Duration::from_nanos(t as u64);
+                let Ok(accepted) = catch(|| l.try_next(peers()[0], &addr, now)) else { return };
+                evs.push(Ev { t_ns: t, ident: 0, peer: 0, addr: addr.clone(), accepted });
+            }
+            if let Some((sig, what)) = oracle(&c, &evs, check) {
+                check.violation(sig, what, witness(&c, &evs));
+            }
+            check.count("fixed_probes", 1);
+        }
+    }
+}
+
 pub fn run(args: &Args) -> i32 {
     let check = Check::new(
         args,
@@ -294,6 +318,7 @@ pub fn run(args: &Args) -> i32 {
     let n = if tiny { 6 } else { args.tier.pick(40_000, 1_500_000) };
     let max_events = if tiny { 30 } else { args.tier.pick(120, 300) };
     let _ = peers();
+    fixed_probes(&check);
     vmon::par_cases(&check, n, args.threads, |_, rng| run_case(&check, rng, max_events));
     check.note("exhaustive", json!(false));
     check.note("timestamps", json!("fabricated: one Instant::now() per case + non-decreasing nanosecond offsets"));
